@@ -45,6 +45,7 @@ type Config struct {
 	OpPeriod    time.Duration // kernel operation period (mint/election ticks)
 	Net         NetConfig
 	LogStore    bool
+	NoLoops     bool // do not schedule the periodic node loops (rigs that only call node APIs)
 	KeepTrace   bool
 	Root        string // directory for Badger data (tmpfs)
 	EpochShift  int64  // seconds subtracted from the genesis epoch (long horizons)
@@ -694,6 +695,9 @@ func (c *Cluster) deliverAt(from, to *SNode, data []byte, at time.Duration) {
 // ---------------------------------------------------------------- node loops
 
 func (c *Cluster) scheduleNodeLoops(n *SNode) {
+	if c.Cfg.NoLoops {
+		return
+	}
 	gen := n.Gen
 	alive := func() bool { return n.Alive && n.Gen == gen && !c.Halt }
 
